@@ -6,6 +6,7 @@ transliterates that body (`harness/foundation/pybody.py: BY_PROPERTY`); this fil
 import Mahotas.Proofs.PyBodyTiesC02
 import Mahotas.Proofs.PyBodyTiesC06
 import Mahotas.Proofs.PyBodyTiesC14
+import Mahotas.Proofs.PyBodyTiesC13
 import Mahotas.Proofs.PyBodyTiesC15
 import Mahotas.Proofs.PyBodyTiesC16
 import Mahotas.Proofs.PyBodyTiesC16b
